@@ -1543,7 +1543,10 @@ def check_C10(ctx):
             if via_mock: at = "[p] parameter in [mocked_i]"; f2 = True
             probe_lines.append(f"{'mckint' if via_mock else 'msgint'} {kind} {hexs(at.encode())} {hexs(et.encode())} {a} {e}")
             model_lines.append(" ".join(["msg", str(int(f1)), str(int(f2)), str(int(f3))] + [hexs(x.encode()) for x in (name, al, ac, el, ec, at, et, render_val(a, aconv), render_val(ev, econv))]))
-            meta.append(("int", at, et if f1 else None, str(a) if (f1 and f2 and aconv == "ld") else None, str(ev) if (f1 and f2 and f3 and econv == "ld") else None))
+            hexv = lambda v: "0x" + format(v & (2**64 - 1), "x")
+            meta.append(("int", at, et if f1 else None,
+                         (str(a) if kind != "hex" else hexv(a)) if (f1 and f2 and (aconv == "ld" or kind == "hex")) else None,
+                         (str(ev) if kind != "hex" else hexv(ev)) if (f1 and f2 and f3 and (econv == "ld" or kind == "hex")) else None))
         else:
             kind = rng.choice(list(ctors_str))
             av, evs = gen_text(rng, 20), gen_text(rng, 20)
